@@ -77,6 +77,21 @@ func (v *VerifRouter) CacheGet(q *dnsmsg.Question, remote netip.AddrPort) (*dnsm
 	return v.r.cache.Get(context.Background(), q, rc)
 }
 
+// CacheStoreAt stores resp in the memory cache with the given stored/expire times (Store always uses now).
+func (v *VerifRouter) CacheStoreAt(q *dnsmsg.Question, client netip.Addr, resp *dnsmsg.Msg, stored, expire time.Time) bool {
+	c := v.r.cache
+	if c.memory == nil {
+		return false
+	}
+	b, err := packCacheMsg(resp)
+	if err != nil {
+		return false
+	}
+	k := cacheKey(q, c.ipMark(client))
+	c.memory.Store(k, stored, expire, b, false)
+	return true
+}
+
 func (v *VerifRouter) IpMark(addr netip.Addr) string { return v.r.cache.ipMark(addr) }
 
 func (v *VerifRouter) KeyForPrefetch(q *dnsmsg.Question, remote netip.Addr) uint64 {
